@@ -37,7 +37,7 @@ func ruleNoDiscardedPull(c *Ctx, r *R, rels ...string) {
 						return
 					}
 					k++
-					key := rel + "." + tn + "." + mn + "|" + what + "#" + itoa(k)
+					key := rel + "." + canonTypeName(rel, tn) + "." + mn + "|" + what + "#" + itoa(k)
 					// tail-forward (return inner.Next()) uses the item in the Return
 					pf := &PF{N: 2} // 0 = nothing pending, 1 = item obtained and not yet used
 					sel, isSel := in.(*ssa.Select)
